@@ -22,7 +22,7 @@ replace github.com/99designs/gqlgen => %s
 CONFIGS = {
     "single": ("  filename: graph/generated.go\n  package: graph", ""),
     "follow": ("  layout: follow-schema\n  dir: graph\n  package: graph", ""),
-    "funcsyn": ("  filename: graph/generated.go\n  package: graph\n  use_function_syntax_for_execution_context: true", ""),
+    "funcsyn": ("  filename: graph/generated.go\n  package: graph", "use_function_syntax_for_execution_context: true\n"),
     "wl1": ("  filename: graph/generated.go\n  package: graph\n  worker_limit: 1", ""),
     "wl2": ("  filename: graph/generated.go\n  package: graph\n  worker_limit: 2", ""),
     "omitptr": ("  filename: graph/generated.go\n  package: graph", "omit_slice_element_pointers: false\ncall_argument_directives_with_null: true\n"),
